@@ -20,6 +20,10 @@ macro_rules! bnum_pairs {
 }
 
 fn main() {
+    vengine::on_worker_stack(real_main);
+}
+
+fn real_main() {
     let mut run = Run::from_args("C09", "c09t");
     vcore::core_configs!(cfg, run);
     vcore::thorough_types!(bnum_pairs, &mut run);
